@@ -115,6 +115,12 @@ def check_accessor(run, f, rule='R8'):
         elif isinstance(par, ast.BinOp) and isinstance(par.op, ast.MatMult):
             use = 'array'
             what = 'operand of @ in ' + src(par, 50)
+        elif isinstance(par, ast.BinOp) and isinstance(par.op, (ast.Mult, ast.Add, ast.Sub, ast.Div)):
+            use = 'array'
+            what = 'element-wise arithmetic ' + src(par, 50)
+        elif isinstance(par, ast.UnaryOp) and isinstance(par.op, ast.USub):
+            use = 'array'
+            what = 'negation ' + src(par, 50)
         elif isinstance(par, ast.comprehension) and par.iter is x:
             use = 'iter'
             what = 'iteration `for ... in %s`' % src(x, 40)
@@ -258,8 +264,8 @@ VECTORISED = {
     'SMPose': (['__mul__', '__truediv__', '__add__', '__sub__', '__eq__', '__ne__'], 'super_pose:SMPose._op2'),
     'Quaternion': (['__mul__', '__add__', '__sub__', '__eq__', '__ne__'], 'smuserlist:SMUserList.binop'),
     'UnitQuaternion': (['__mul__', '__truediv__', '__eq__', '__ne__'], 'smuserlist:SMUserList.binop'),
-    'Twist3': (['__mul__', '__eq__', '__ne__'], 'smuserlist:SMUserList.binop'),
-    'Twist2': (['__mul__', '__eq__', '__ne__'], 'smuserlist:SMUserList.binop'),
+    'Twist3': (['__mul__', '__rmul__', '__eq__', '__ne__'], 'smuserlist:SMUserList.binop'),
+    'Twist2': (['__mul__', '__rmul__', '__eq__', '__ne__'], 'smuserlist:SMUserList.binop'),
 }
 
 
@@ -283,8 +289,29 @@ def check_reach_helpers(run, rule='R8h'):
                               'the broadcasting helper %s: the 1/M length rules are not applied' % h.name, f=mem)
 
 
+OPERATOR_CLASSES = ('SMPose', 'SO2', 'SE2', 'SO3', 'SE3', 'Quaternion', 'UnitQuaternion', 'SMTwist', 'Twist2', 'Twist3')
+OPERATOR_DUNDERS = ('__mul__', '__rmul__', '__matmul__', '__truediv__', '__add__', '__radd__', '__sub__', '__rsub__', '__pow__',
+                    '__eq__', '__ne__', '__neg__', '__imul__', '__itruediv__', '__iadd__', '__isub__')
+
+
+def operator_methods(prog):
+    out = []
+    for cn in OPERATOR_CLASSES:
+        c = prog.cls(cn)
+        for nm in OPERATOR_DUNDERS:
+            mem = c.members.get(nm)
+            if isinstance(mem, Function):
+                out.append(mem)
+    return out
+
+
 def run_r8(run, rule='R8'):
     prog = run.prog
+    done = set(ACCESSORS)
+    for f in operator_methods(prog):
+        if f.key not in done:
+            done.add(f.key)
+            check_accessor(run, f)
     for k in ACCESSORS:
         f = prog.func(k)
         if k.endswith('.unop'):
